@@ -6,6 +6,7 @@ import Proofs.Lemmas.BeaconBlockSlashInv
 import Proofs.Lemmas.BeaconBlockCompose
 import Proofs.Lemmas.BeaconBlockSteps
 import Proofs.Lemmas.BeaconBlockFrames
+import Proofs.Lemmas.BeaconBlockP0
 import Proofs.Properties.C02
 /-!
 # C01 — block state transition equals the consensus spec for every valid block
@@ -57,7 +58,8 @@ hypotheses across attestations / sync aggregate / withdrawals (balances grow by 
 total active balance and proposer stay the specification's while the state changes under the context; proved for exit
 initiation, i.e. exits and slashings). That is what keeps `M_block_refines_S` a `_partial`: see
 `M_block_refines_S_partial`. For phase0 blocks WITHOUT operations the premise is discharged completely:
-`processBlock_noOps_eq`; and for phase0 blocks whose only operations are voluntary exits: `processBlock_exits_eq`.
+`processBlock_noOps_eq`; for phase0 blocks whose only operations are voluntary exits: `processBlock_exits_eq`; and for phase0 blocks of proposer
+slashings, attester slashings and exits: `processBlock_slashExit_eq`.
 Each `M` piece is additionally tied to the Go function it models by mode `c01pieces`
 (ZigZagJoin, IsSlashableAttestationData, GetExpectedWithdrawals, InitiateValidatorExit,
 ValidateIndexedAttestationIndicesSet are driven directly with generated inputs).
@@ -66,7 +68,7 @@ namespace Zrnt.Proofs.C01
 open Zrnt Zrnt.Beacon Zrnt.Beacon.Spec Zrnt.Beacon.BlockImpl Zrnt.Proofs.BeaconBlock
 open Zrnt.Beacon.BlockM (Ctx processHeader processRandaoReveal processEth1Vote processBLSToExecutionChange processExecutionPayload processVoluntaryExit processDeposit
   processAttestationPhase0 processAttestationAltair slashValidator processProposerSlashing processAttesterSlashing processBlock postSlotTransition)
-open Zrnt.Proofs.BlockM (RegU64 ExitSmall PubkeyOK SameDuties SlashSmall SlashInv OpSteps Sim Refines Safe NoOps SameCommittees OnlyExits ExitInv)
+open Zrnt.Proofs.BlockM (RegU64 ExitSmall PubkeyOK SameDuties SlashSmall SlashInv OpSteps Sim Refines Safe NoOps SameCommittees OnlyExits ExitInv P0Inv P0Const SlashExitBlock)
 
 /-- (a) `common.ValidatorSet.ZigZagJoin`, called on two strictly increasing index lists (what
 `ValidateIndexedAttestation` has established), calls `onIn` with exactly the spec's
@@ -598,5 +600,19 @@ theorem processBlock_exits_eq (cfg : Config) (ctx : Ctx) (st : State) (block : S
     (htyped : Block.check_types cfg block = .ok ()) :
     Sim (Block.process_block cfg st block) (processBlock cfg ctx st block) :=
   BlockM.processBlock_exits cfg ctx st block p C hno hi hpos hlook hsmall hq hC htyped
+
+/-- … and for phase0 blocks whose operations are proposer slashings, attester slashings and voluntary exits, ANY numbers
+of them (`SlashExitBlock`): `M_block_refines_S` and `M_sound` without the premise `OpSteps`. `P0Inv … k ctx st` is the
+counter-indexed invariant (`SlashInv` with `k · MAX_VALIDATORS_PER_COMMITTEE` slashings of headroom relative to the
+block's pre-state, the context's proposer / active count = the specification's, C02's exit-queue budget); the pre-state
+needs `blockNeed block k` units — one per operation of the block plus six — and the state after an accepted block
+satisfies the invariant again with `k` units (so blocks chain). `P0Const`: the configuration facts (non-zero quotients,
+`uint64` room for the epochs, `(MIN_SEED_LOOKAHEAD + 1) mod EPOCHS_PER_HISTORICAL_VECTOR ≠ 0`). -/
+theorem processBlock_slashExit_eq (cfg : Config) (S0 : State) (p Bm C k : Nat) (K : P0Const cfg S0 Bm C) (ctx : Ctx) (block : SignedBlock)
+    (hb : SlashExitBlock cfg block) (hi : P0Inv cfg S0 p Bm C (BlockM.blockNeed block k) ctx S0)
+    (htyped : Block.check_types cfg block = .ok ()) :
+    Sim (Block.process_block cfg S0 block) (processBlock cfg ctx S0 block) ∧
+    ∀ st', processBlock cfg ctx S0 block = .ok st' → ∃ ctx', P0Inv cfg S0 p Bm C k ctx' st' :=
+  BlockM.processBlock_slashExit cfg S0 p Bm C k K ctx block hb hi htyped
 
 end Zrnt.Proofs.C01
